@@ -11,6 +11,7 @@ import (
 
 	"github.com/beevik/etree"
 	"github.com/crewjam/saml"
+	"github.com/crewjam/saml/samlsp"
 
 	"verif/engine/core"
 	"verif/engine/harness"
@@ -448,7 +449,8 @@ func runC04(c *core.Ctx) {
 							for _, layDecoy := range []struct {
 								lay   harness.Layout
 								decoy string
-							}{{layouts[0], ""}, {layouts[1], ""}, {layouts[0], "session-token-under-tracking-name"}, {layouts[0], "garbage-under-tracking-name"}} {
+							}{{layouts[0], ""}, {layouts[1], ""}, {layouts[0], "session-token-under-tracking-name"}, {layouts[0], "garbage-under-tracking-name"},
+								{layouts[0], "tracking-token-of-a-sibling-app/other-audience"}, {layouts[0], "tracking-token-of-a-sibling-app/other-issuer"}, {layouts[0], "tracking-token-of-a-sibling-app/other-both"}} {
 								lay, decoy := layDecoy.lay, layDecoy.decoy
 								ri, ci, present := ri, ci, present
 								key := fmt.Sprintf("middleware/idpinit=%v/tracked=%d/presented=%02b/resp=%s/conf=%s/lay=%s", idpInit, nTracked, present, mwIRTs[ri].name, mwIRTs[ci].name, lay)
@@ -499,6 +501,22 @@ func runC04(c *core.Ctx) {
 										}
 									case "garbage-under-tracking-name":
 										cookies["saml_x"] = "not.a.token"
+									case "tracking-token-of-a-sibling-app/other-audience", "tracking-token-of-a-sibling-app/other-issuer", "tracking-token-of-a-sibling-app/other-both":
+										// a tracking token minted under the same key by another application (another audience and / or issuer) for ITS
+										// request "id-foreign-request": that request is not outstanding here
+										if tr, ok := w.m.RequestTracker.(samlsp.CookieRequestTracker); ok {
+											if cd, ok := tr.Codec.(samlsp.JWTTrackedRequestCodec); ok {
+												if decoy != "tracking-token-of-a-sibling-app/other-issuer" {
+													cd.Audience = "https://sibling.example.com"
+												}
+												if decoy != "tracking-token-of-a-sibling-app/other-audience" {
+													cd.Issuer = "https://sibling.example.com"
+												}
+												if tok, err := cd.Encode(samlsp.TrackedRequest{Index: "sibling", SAMLRequestID: "id-foreign-request", URI: "/sibling"}); err == nil {
+													cookies["saml_sibling"] = tok
+												}
+											}
+										}
 									}
 									resp := samlgen.DefaultResponse()
 									resp.InResponseTo = mwIRTs[ri].f(ids)
@@ -514,6 +532,9 @@ func runC04(c *core.Ctx) {
 										if resp.InResponseTo != nil && *resp.InResponseTo == ids[k] {
 											form.Set("RelayState", st.flows[k].index)
 										}
+									}
+									if _, ok := cookies["saml_sibling"]; ok && resp.InResponseTo != nil && *resp.InResponseTo == "id-foreign-request" {
+										form.Set("RelayState", "sibling")
 									}
 									rep := w.do(0, "POST", "/saml/acs", cookies, form, "c04mw")
 									t.Impl(w.impl)
